@@ -261,6 +261,8 @@ TraceBlockEnd ==
                 \cup V(\A p \in Slots : At(ln.riar, p) = ri[p], "conf.riar")
                 \cup V(\A p \in Slots : \A lv \in Levels : At(At(ln.dts, p), lv) = ldt[p], "conf.level_dt")
                 \cup V(ln.carry = hexp, "val.carry")
+                \* each accepted step started from exactly the end value of the previous accepted step
+                \cup V(last = <<>> \/ \A p \in 1 .. ra - 1 : At(At(last.h0, p), 0) = At(At(last.he, p - 1), 0), "val.chain")
                 \cup V(\A i \in 1 .. Len(ln.u0) : ln.u0[i] = ln.carry, "val.block_start_value")
                 \cup V(\A i \in 1 .. Len(ln.aliased) : ~ ln.aliased[i], "val.u0_copied")
                 \* observed tiling: the next block starts where the accepted part of this one ends
